@@ -235,8 +235,10 @@ func (s *clusterState) UpsertLocal(key, value string) {
 
 	existing, ok := state.Entries[key]
 	if ok {
-		// If the entry is unchanged do nothing.
-		if existing.Value == value {
+		// If the entry is unchanged do nothing. A deleted entry is always
+		// updated, as it has an empty value so otherwise upserting an empty
+		// value would leave the key deleted.
+		if existing.Value == value && !existing.Deleted {
 			return
 		}
 	}
